@@ -523,14 +523,14 @@ theorem upd_other (f : Nat → NodeSt) {i j : Nat} (n : NodeSt) (h : i ≠ j) : 
 
 /-- For the connection of the latest successful handshake of a client both records exist, with the deadline
 the reference computes, and the node's registry maps the client to it. -/
-def LiveInv (latest : FMap Nat (Conn × Nat)) (opened : List Conn) (nodes : Nat → NodeSt) (s : Store) : Prop :=
-  ∀ x c u, FMap.lookup latest x = some (c, u) →
+def LiveInv (latest : LMap) (opened : List Conn) (nodes : Nat → NodeSt) (s : Store) : Prop :=
+  ∀ x c u, LMap.lookup latest x = some (c, u) →
     c.client = x ∧ 0 < x ∧ c ∈ opened ∧
     FMap.lookup (nodes c.node).byClient x = some c ∧
     FMap.lookup s (.conn c) = some ⟨.info (infoOf c), u⟩ ∧
     FMap.lookup s (.client x) = some ⟨.id c, u⟩
 
-theorem LiveInv.frame {latest : FMap Nat (Conn × Nat)} {o o' : List Conn} {nodes nodes' : Nat → NodeSt} {s : Store}
+theorem LiveInv.frame {latest : LMap} {o o' : List Conn} {nodes nodes' : Nat → NodeSt} {s : Store}
     (h : LiveInv latest o nodes s) (ho : ∀ c, c ∈ o → c ∈ o')
     (hb : ∀ j, (nodes' j).byClient = (nodes j).byClient) : LiveInv latest o' nodes' s := by
   intro x c u hl
@@ -540,27 +540,28 @@ theorem LiveInv.frame {latest : FMap Nat (Conn × Nat)} {o o' : List Conn} {node
 structure Inv (S : SpecSt) (M : St) : Prop where
   now_eq : S.now = M.now
   nodeOk : ∀ j, NodeOk j (M.nodes j)
-  opened_iff : ∀ c, c ∈ S.opened ↔ c ∈ (M.nodes c.node).conns
+  conns_opened : ∀ j c, c ∈ (M.nodes j).conns → c ∈ S.opened
   store : StoreInv S.opened M.store
   live : LiveInv S.latest S.opened M.nodes M.store
+  down_eq : S.down = M.down
 
 theorem Inv.init : Inv SpecSt.init St.init :=
-  ⟨rfl, fun j => NodeOk.empty j, fun c => by simp [SpecSt.init, St.init, NodeSt.empty],
-   StoreInv.empty _, fun x c u h => by simp [SpecSt.init] at h⟩
+  ⟨rfl, fun j => NodeOk.empty j, fun j c h => by simp [St.init, NodeSt.empty] at h,
+   StoreInv.empty _, fun x c u h => by simp [SpecSt.init, LMap.lookup, LMap.empty] at h, rfl⟩
 
 /-- A node update at `j` that keeps `connMap` and `clientIDMap` (registry bookkeeping only). -/
 theorem Inv.nodeOnly {S : SpecSt} {M : St} (h : Inv S M) (j : Nat) (n' : NodeSt)
     (hok : NodeOk j n') (hconns : n'.conns = (M.nodes j).conns) (hbc : n'.byClient = (M.nodes j).byClient) :
     Inv S { M with nodes := upd M.nodes j n' } := by
-  refine ⟨h.now_eq, ?_, ?_, h.store, ?_⟩
+  refine ⟨h.now_eq, ?_, ?_, h.store, ?_, h.down_eq⟩
   · intro i
     by_cases hi : i = j
     · subst hi; simp only [upd_same]; exact hok
     · simp only [upd_other _ _ hi]; exact h.nodeOk i
-  · intro c
-    by_cases hi : c.node = j
-    · simp only [hi, upd_same, hconns]; rw [← hi]; exact h.opened_iff c
-    · simp only [upd_other _ _ hi]; exact h.opened_iff c
+  · intro i c
+    by_cases hi : i = j
+    · subst hi; simp only [upd_same, hconns]; exact h.conns_opened i c
+    · simp only [upd_other _ _ hi]; exact h.conns_opened i c
   · refine h.live.frame (fun c hc => hc) ?_
     intro i
     by_cases hi : i = j
@@ -574,19 +575,21 @@ theorem Inv.open {S : SpecSt} {M : St} (h : Inv S M) (c : Conn) :
   · simp only [hs, if_true, specStep, stepOk]
     simpa using h
   · simp only [hs, if_false, specStep, stepOk, not_false_eq_true, decide_true, if_true]
-    refine ⟨h.now_eq, ?_, ?_, ?_, ?_⟩
+    refine ⟨h.now_eq, ?_, ?_, ?_, ?_, h.down_eq⟩
     · intro i
       by_cases hi : i = c.node
       · subst hi; simp only [upd_same]; exact (h.nodeOk _).of_addConn rfl
       · simp only [upd_other _ _ hi]; exact h.nodeOk i
-    · intro d
+    · intro i d
       simp only [mem_add]
-      by_cases hi : d.node = c.node
-      · simp only [hi, upd_same, NodeSt.addConn, mem_add]
-        rw [← hi, ← h.opened_iff d]
+      by_cases hi : i = c.node
+      · subst hi
+        simp only [upd_same, NodeSt.addConn, mem_add]
+        rintro (hd | hd)
+        · exact Or.inl hd
+        · exact Or.inr (h.conns_opened _ d hd)
       · simp only [upd_other _ _ hi]
-        have hdc : d ≠ c := fun e => hi (e ▸ rfl)
-        simp [hdc, h.opened_iff d]
+        exact fun hd => Or.inr (h.conns_opened i d hd)
     · exact h.store.mono (fun d hd => mem_add.mpr (Or.inr hd))
     · refine h.live.frame (fun d hd => mem_add.mpr (Or.inr hd)) ?_
       intro i
@@ -596,7 +599,7 @@ theorem Inv.open {S : SpecSt} {M : St} (h : Inv S M) (c : Conn) :
 
 theorem Inv.tick {S : SpecSt} {M : St} (h : Inv S M) (dt : Nat) :
     Inv { S with now := S.now + dt } { M with now := M.now + dt } :=
-  ⟨by simp [h.now_eq], h.nodeOk, h.opened_iff, h.store, h.live⟩
+  ⟨by simp [h.now_eq], h.nodeOk, h.conns_opened, h.store, h.live, h.down_eq⟩
 
 /-! ## handshake -/
 
@@ -706,27 +709,27 @@ theorem Inv.handshake {P : Params} (hv : P.v = repaired) (httl : 0 < P.ttl) {S :
             rcases hfound with hf | hf
             · exact hn.ctrl_conns c hf
             · exact hf
-          have hopen : c ∈ S.opened := (h.opened_iff c).mpr hconn
-          refine ⟨h.now_eq, ?_, ?_, ?_, ?_⟩
+          have hopen : c ∈ S.opened := h.conns_opened _ c hconn
+          refine ⟨h.now_eq, ?_, ?_, ?_, ?_, h.down_eq⟩
           · intro i
             by_cases hi : i = c.node
             · subst hi; simp only [upd_same]; exact hn1.of_hsNode hc1 ha1 hx
             · simp only [upd_other _ _ hi]; exact h.nodeOk i
-          · intro d
-            by_cases hi : d.node = c.node
-            · simp only [hi, upd_same, conns_hsNode, NodeSt.addAuth]; rw [← hi]; exact h.opened_iff d
-            · simp only [upd_other _ _ hi]; exact h.opened_iff d
+          · intro i d
+            by_cases hi : i = c.node
+            · subst hi; simp only [upd_same, conns_hsNode, NodeSt.addAuth]; exact h.conns_opened _ d
+            · simp only [upd_other _ _ hi]; exact h.conns_opened i d
           · exact h.store.hsStore hv M.now _ hopen hx
           · intro y c2 u2 hl
             by_cases hy : c.client = y
             · subst hy
-              rw [FMap.lookup_insert_eq] at hl
+              rw [LMap.lookup_insert_eq] at hl
               injection hl with hl; injection hl with hl1 hl2; subst hl1; subst hl2
               refine ⟨rfl, hx, hopen, ?_, ?_, ?_⟩
               · simp only [upd_same, lookup_byClient_hsNode hn1, if_true]
               · rw [hsStore_conn_self P M.now M.store _ hx, expiry_pos httl, h.now_eq]
               · rw [hsStore_client_self P M.now M.store _ hx, expiry_pos httl, h.now_eq]
-            · rw [FMap.lookup_insert_ne _ _ hy] at hl
+            · rw [LMap.lookup_insert_ne _ _ hy] at hl
               obtain ⟨h1, h2, h3, h4, h5, h6⟩ := h.live y c2 u2 hl
               have hne2 : c2.client ≠ c.client := by rw [h1]; exact fun e => hy e.symm
               refine ⟨h1, h2, h3, ?_, ?_, ?_⟩
@@ -805,7 +808,7 @@ theorem Inv.heartbeat {P : Params} (hv : P.v = repaired) (httl : 0 < P.ttl) {S :
         && decide (c.client > 0)) = true := by simp [hrb, hg.1, hg.2.1, hg.2.2]
     simp only [hcond, if_true, specStep]
     -- every reference obligation of a connection other than `c` survives the refresh
-    have hother : ∀ y c2 u2, FMap.lookup S.latest y = some (c2, u2) → c2 ≠ c →
+    have hother : ∀ y c2 u2, LMap.lookup S.latest y = some (c2, u2) → c2 ≠ c →
         c2.client = y ∧ 0 < y ∧ c2 ∈ S.opened ∧ FMap.lookup (M.nodes c2.node).byClient y = some c2 ∧
         FMap.lookup (refreshConnection P M.now M.store c) (.conn c2) = some ⟨.info (infoOf c2), u2⟩ ∧
         FMap.lookup (refreshConnection P M.now M.store c) (.client y) = some ⟨.id c2, u2⟩ := by
@@ -826,10 +829,10 @@ theorem Inv.heartbeat {P : Params} (hv : P.v = repaired) (httl : 0 < P.ttl) {S :
               injection this with this; subst this
               simp at hval; exact absurd hval hne
           · exact Or.inl hy
-    cases hl : FMap.lookup S.latest c.client with
+    cases hl : LMap.lookup S.latest c.client with
     | none =>
       simp only
-      refine ⟨h.now_eq, h.nodeOk, h.opened_iff, h.store.refresh hv M.now c, ?_⟩
+      refine ⟨h.now_eq, h.nodeOk, h.conns_opened, h.store.refresh hv M.now c, ?_, h.down_eq⟩
       intro y c2 u2 hl2
       refine hother y c2 u2 hl2 ?_
       intro e; subst e
@@ -845,32 +848,32 @@ theorem Inv.heartbeat {P : Params} (hv : P.v = repaired) (httl : 0 < P.ttl) {S :
         · simp only [hu, if_true]
           have hu' : M.now ≤ u0 := h.now_eq ▸ hu
           have hre := refresh_live hv h2 h5 hu' h6 hu'
-          refine ⟨h.now_eq, h.nodeOk, h.opened_iff, h.store.refresh hv M.now c0, ?_⟩
+          refine ⟨h.now_eq, h.nodeOk, h.conns_opened, h.store.refresh hv M.now c0, ?_, h.down_eq⟩
           intro y c2 u2 hl2
           by_cases hy : c0.client = y
           · subst hy
-            rw [FMap.lookup_insert_eq] at hl2
+            rw [LMap.lookup_insert_eq] at hl2
             injection hl2 with hl2; injection hl2 with e1 e2; subst e1; subst e2
             refine ⟨rfl, h2, h3, h4, ?_, ?_⟩
             · show FMap.lookup (refreshConnection P M.now M.store c0) _ = _
               rw [hre, lookup_set, lookup_set, expiry_pos httl, h.now_eq]; simp
             · show FMap.lookup (refreshConnection P M.now M.store c0) _ = _
               rw [hre, lookup_set, expiry_pos httl, h.now_eq]; simp
-          · rw [FMap.lookup_insert_ne _ _ hy] at hl2
+          · rw [LMap.lookup_insert_ne _ _ hy] at hl2
             refine hother y c2 u2 hl2 ?_
             intro e; subst e
             exact hy (h.live y c2 u2 hl2).1
         · simp only [hu, if_false]
-          refine ⟨h.now_eq, h.nodeOk, h.opened_iff, h.store.refresh hv M.now c0, ?_⟩
+          refine ⟨h.now_eq, h.nodeOk, h.conns_opened, h.store.refresh hv M.now c0, ?_, h.down_eq⟩
           intro y c2 u2 hl2
           by_cases hy : c0.client = y
-          · subst hy; rw [FMap.lookup_erase_eq] at hl2; cases hl2
-          · rw [FMap.lookup_erase_ne _ hy] at hl2
+          · subst hy; rw [LMap.lookup_erase_eq] at hl2; cases hl2
+          · rw [LMap.lookup_erase_ne _ hy] at hl2
             refine hother y c2 u2 hl2 ?_
             intro e; subst e
             exact hy (h.live y c2 u2 hl2).1
       · simp only [hc0, if_false]
-        refine ⟨h.now_eq, h.nodeOk, h.opened_iff, h.store.refresh hv M.now c, ?_⟩
+        refine ⟨h.now_eq, h.nodeOk, h.conns_opened, h.store.refresh hv M.now c, ?_, h.down_eq⟩
         intro y c2 u2 hl2
         refine hother y c2 u2 hl2 ?_
         intro e; subst e
@@ -887,7 +890,7 @@ theorem Inv.heartbeat {P : Params} (hv : P.v = repaired) (httl : 0 < P.ttl) {S :
         · simp [h2]
       · simp [h1]
     simp only [hcond, Bool.false_eq_true, if_false, specStep]
-    cases hl : FMap.lookup S.latest c.client with
+    cases hl : LMap.lookup S.latest c.client with
     | none => exact h
     | some p =>
       obtain ⟨c0, u0⟩ := p
@@ -899,19 +902,18 @@ theorem Inv.heartbeat {P : Params} (hv : P.v = repaired) (httl : 0 < P.ttl) {S :
         exact absurd ⟨g1, g2, h2⟩ hg
       · simp only [hc0, if_false]; exact h
 
-/-! ## close -/
+/-! ## close (every path ends in `CloseConnection`) -/
 
-theorem Inv.close {P : Params} (hv : P.v = repaired) {S : SpecSt} {M : St} (h : Inv S M) (c : Conn) :
-    Inv (specStep P.ttl S (stepOk M (.close c)) (.close c)) (closeConnection P M c) := by
-  unfold closeConnection
-  simp only [specStep]
+theorem Inv.closeConn {P : Params} (hv : P.v = repaired) {S : SpecSt} {M : St} (h : Inv S M) (c : Conn) :
+    Inv (specClose S c) (closeConnection P M c) := by
+  unfold closeConnection specClose
   have hlat : ∀ y c2 u2,
-      FMap.lookup (match FMap.lookup S.latest c.client with
-        | some p => if p.1 = c then FMap.erase S.latest c.client else S.latest
+      LMap.lookup (match LMap.lookup S.latest c.client with
+        | some p => if p.1 = c then LMap.erase S.latest c.client else S.latest
         | none => S.latest) y = some (c2, u2) →
-      FMap.lookup S.latest y = some (c2, u2) ∧ c2 ≠ c := by
+      LMap.lookup S.latest y = some (c2, u2) ∧ c2 ≠ c := by
     intro y c2 u2 hl
-    cases hl0 : FMap.lookup S.latest c.client with
+    cases hl0 : LMap.lookup S.latest c.client with
     | none =>
       simp only [hl0] at hl
       refine ⟨hl, ?_⟩
@@ -924,8 +926,8 @@ theorem Inv.close {P : Params} (hv : P.v = repaired) {S : SpecSt} {M : St} (h : 
       · subst hc0
         simp only [if_true] at hl
         by_cases hy : c0.client = y
-        · subst hy; rw [FMap.lookup_erase_eq] at hl; cases hl
-        · rw [FMap.lookup_erase_ne _ hy] at hl
+        · subst hy; rw [LMap.lookup_erase_eq] at hl; cases hl
+        · rw [LMap.lookup_erase_ne _ hy] at hl
           refine ⟨hl, ?_⟩
           intro e; subst e
           exact hy (h.live y c2 u2 hl).1
@@ -934,22 +936,22 @@ theorem Inv.close {P : Params} (hv : P.v = repaired) {S : SpecSt} {M : St} (h : 
         intro e; subst e
         rw [(h.live y c2 u2 hl).1] at hl0; rw [hl0] at hl
         injection hl with hl; injection hl with e1 _; exact hc0 e1
-  refine ⟨h.now_eq, ?_, ?_, ?_, ?_⟩
+  refine ⟨h.now_eq, ?_, ?_, ?_, ?_, h.down_eq⟩
   · intro i
     by_cases hi : i = c.node
     · subst hi; simp only [upd_same]; exact (h.nodeOk _).close c
     · simp only [upd_other _ _ hi]; exact h.nodeOk i
-  · intro d
+  · intro i d
     simp only [mem_rm]
-    by_cases hi : d.node = c.node
-    · have hu : (upd M.nodes c.node (regRemove ((M.nodes c.node).dropConn c) c)) d.node =
-          regRemove ((M.nodes c.node).dropConn c) c := by rw [hi]; exact upd_same _ _ _
-      rw [hu, conns_regRemove]
-      simp only [NodeSt.dropConn, mem_rm]
-      rw [h.opened_iff d, hi]
+    by_cases hi : i = c.node
+    · subst hi
+      simp only [upd_same, conns_regRemove, NodeSt.dropConn, mem_rm]
+      exact fun hd => ⟨h.conns_opened _ d hd.1, hd.2⟩
     · simp only [upd_other _ _ hi]
-      have hdc : d ≠ c := fun e => hi (e ▸ rfl)
-      simp [hdc, h.opened_iff d]
+      intro hd
+      refine ⟨h.conns_opened i d hd, ?_⟩
+      intro e; subst e
+      exact hi ((h.nodeOk i).node_eq _ hd).symm
   · refine (h.store.unregister hv M.now c).rmOpened ?_
     rw [lookup_unregister_conn hv h.store]; simp
   · intro y c2 u2 hl
@@ -974,6 +976,128 @@ theorem Inv.close {P : Params} (hv : P.v = repaired) {S : SpecSt} {M : St} (h : 
       · rw [h6] at hle; injection hle with hle; subst hle
         simp at hval; exact absurd hval hne
 
+theorem upd_upd (f : Nat → NodeSt) (j : Nat) (a b : NodeSt) : upd (upd f j a) j b = upd f j b := by
+  funext i; simp only [upd]; split <;> rfl
+
+/-- The sweep drops the connection from the registry first and calls `CloseConnection` afterwards: same result. -/
+theorem sweepStale_eq (P : Params) (M : St) (c : Conn) (hc : c ∈ (M.nodes c.node).ctrl) :
+    sweepStale P M c = closeConnection P M c := by
+  unfold sweepStale closeConnection
+  simp only [hc, if_true, upd_same, upd_upd]
+  have hn : regRemove ((regRemove (M.nodes c.node) c).dropConn c) c = regRemove ((M.nodes c.node).dropConn c) c := by
+    have h1 : c ∉ rm c (M.nodes c.node).ctrl := by simp [mem_rm]
+    simp only [regRemove, hc, if_true, NodeSt.dropConn, h1, if_false]
+    rfl
+  rw [hn]
+
+/-! ## duplicate-login eviction, shutdown -/
+
+theorem Inv.kick {S : SpecSt} {M : St} (h : Inv S M) (c : Conn) :
+    Inv (specStep ttl S (stepOk M (.kick c)) (.kick c)) (kickOld M c) := by
+  -- whatever the reference forgets, the remaining obligations are among the old ones
+  have hsub : ∀ y c2 u2, LMap.lookup (specStep ttl S (stepOk M (.kick c)) (.kick c)).latest y = some (c2, u2) →
+      LMap.lookup S.latest y = some (c2, u2) ∧ ¬ (y = c.client ∧ c2.node = c.node ∧ c2 ≠ c) := by
+    intro y c2 u2 hl
+    simp only [specStep] at hl
+    cases hl0 : LMap.lookup S.latest c.client with
+    | none =>
+      simp only [hl0] at hl
+      refine ⟨hl, ?_⟩
+      rintro ⟨e, _, _⟩; subst e; rw [hl0] at hl; cases hl
+    | some p =>
+      simp only [hl0] at hl
+      by_cases hp : p.1.node = c.node ∧ p.1 ≠ c
+      · rw [if_pos hp] at hl
+        by_cases hy : c.client = y
+        · subst hy; rw [LMap.lookup_erase_eq] at hl; cases hl
+        · rw [LMap.lookup_erase_ne _ hy] at hl
+          exact ⟨hl, fun e => hy e.1.symm⟩
+      · rw [if_neg hp] at hl
+        refine ⟨hl, ?_⟩
+        rintro ⟨e, h2, h3⟩; subst e
+        rw [hl0] at hl; injection hl with hl; subst hl
+        exact hp ⟨h2, h3⟩
+  have hS : (specStep ttl S (stepOk M (.kick c)) (.kick c)).opened = S.opened ∧
+      (specStep ttl S (stepOk M (.kick c)) (.kick c)).now = S.now ∧
+      (specStep ttl S (stepOk M (.kick c)) (.kick c)).down = S.down := by
+    simp only [specStep]
+    cases LMap.lookup S.latest c.client with
+    | none => exact ⟨rfl, rfl, rfl⟩
+    | some p => simp only; split <;> exact ⟨rfl, rfl, rfl⟩
+  unfold kickOld
+  cases hb : FMap.lookup (M.nodes c.node).byClient c.client with
+  | none =>
+    simp only
+    refine ⟨hS.2.1 ▸ h.now_eq, h.nodeOk, ?_, hS.1 ▸ h.store, ?_, hS.2.2 ▸ h.down_eq⟩
+    · rw [hS.1]; exact h.conns_opened
+    · intro y c2 u2 hl
+      rw [hS.1]; exact h.live y c2 u2 (hsub y c2 u2 hl).1
+  | some o =>
+    simp only
+    by_cases hoc : o = c
+    · simp only [hoc, ne_eq, not_true_eq_false, if_false]
+      refine ⟨hS.2.1 ▸ h.now_eq, h.nodeOk, ?_, hS.1 ▸ h.store, ?_, hS.2.2 ▸ h.down_eq⟩
+      · rw [hS.1]; exact h.conns_opened
+      · intro y c2 u2 hl
+        rw [hS.1]; exact h.live y c2 u2 (hsub y c2 u2 hl).1
+    · simp only [ne_eq, hoc, not_false_eq_true, if_true]
+      refine ⟨hS.2.1 ▸ h.now_eq, ?_, ?_, hS.1 ▸ h.store, ?_, hS.2.2 ▸ h.down_eq⟩
+      · intro i
+        by_cases hi : i = c.node
+        · subst hi; simp only [upd_same]; exact (h.nodeOk _).of_regRemove o
+        · simp only [upd_other _ _ hi]; exact h.nodeOk i
+      · intro i d
+        rw [hS.1]
+        by_cases hi : i = c.node
+        · subst hi; simp only [upd_same, conns_regRemove]; exact h.conns_opened _ d
+        · simp only [upd_other _ _ hi]; exact h.conns_opened i d
+      · intro y c2 u2 hl
+        obtain ⟨hl', hnot⟩ := hsub y c2 u2 hl
+        obtain ⟨h1, h2, h3, h4, h5, h6⟩ := h.live y c2 u2 hl'
+        rw [hS.1]
+        refine ⟨h1, h2, h3, ?_, h5, h6⟩
+        by_cases hi : c2.node = c.node
+        · have hu : (upd M.nodes c.node (regRemove (M.nodes c.node) o)) c2.node = regRemove (M.nodes c.node) o := by
+            rw [hi]; exact upd_same _ _ _
+          show FMap.lookup ((upd M.nodes c.node (regRemove (M.nodes c.node) o)) c2.node).byClient y = some c2
+          rw [hu, lookup_byClient_regRemove (h.nodeOk c.node)]
+          rw [hi] at h4
+          have : FMap.lookup (M.nodes c.node).byClient y ≠ some o := by
+            rw [h4]; intro e; injection e with e; subst e
+            -- the evicted connection would be the obligation's connection: the reference forgot it
+            have hy : y = c.client := by rw [← h1]; exact (((h.nodeOk c.node).byClient _ _ hb).2.2.1)
+            exact hnot ⟨hy, hi, hoc⟩
+          simp only [this, if_false]; exact h4
+        · simp only [upd_other _ _ hi]; exact h4
+
+theorem NodeOk.closed (j : Nat) (n : NodeSt) : NodeOk j n.closed :=
+  ⟨fun c h => by simp [NodeSt.closed] at h, fun c h => by simp [NodeSt.closed] at h,
+   fun x c h => by simp [NodeSt.closed] at h⟩
+
+theorem Inv.shutdown {S : SpecSt} {M : St} (h : Inv S M) (n : Nat) :
+    Inv { S with latest := LMap.dropNode S.latest n, down := n :: S.down } (shutdownNode M n) := by
+  unfold shutdownNode
+  refine ⟨h.now_eq, ?_, ?_, h.store, ?_, by simp [h.down_eq]⟩
+  · intro i
+    by_cases hi : i = n
+    · subst hi; simp only [upd_same]; exact NodeOk.closed _ _
+    · simp only [upd_other _ _ hi]; exact h.nodeOk i
+  · intro i d
+    by_cases hi : i = n
+    · subst hi; simp [upd_same, NodeSt.closed]
+    · simp only [upd_other _ _ hi]; exact h.conns_opened i d
+  · intro y c2 u2 hl
+    obtain ⟨hl', hne⟩ := LMap.lookup_dropNode hl
+    obtain ⟨h1, h2, h3, h4, h5, h6⟩ := h.live y c2 u2 hl'
+    refine ⟨h1, h2, h3, ?_, h5, h6⟩
+    have : c2.node ≠ n := hne
+    simp only [upd_other _ _ this]; exact h4
+
+/-- Lookups in flight are bookkeeping of the observer: no invariant mentions them. -/
+theorem Inv.setPending {S : SpecSt} {M : St} (h : Inv S M) (p : FMap (Nat × Nat) (Option Conn)) :
+    Inv S { M with pending := p } :=
+  ⟨h.now_eq, h.nodeOk, h.conns_opened, h.store, h.live, h.down_eq⟩
+
 /-! ## one step -/
 
 theorem Inv.step {P : Params} (hv : P.v = repaired) (httl : 0 < P.ttl) {S : SpecSt} {M : St} (h : Inv S M)
@@ -983,7 +1107,24 @@ theorem Inv.step {P : Params} (hv : P.v = repaired) (httl : 0 < P.ttl) {S : Spec
   | hs c ok => exact h.handshake hv httl c ok
   | hsTunnel c ok => exact h.handshakeTunnel c ok
   | hb c => exact h.heartbeat hv httl c
-  | close c => exact h.close hv c
+  | close c k =>
+    cases k with
+    | direct => simpa [specStep, stepOk, Tunnox.C08.step] using h.closeConn hv c
+    | eof => simpa [specStep, stepOk, Tunnox.C08.step] using h.closeConn hv c
+    | disconnect =>
+      by_cases hc : c ∈ (M.nodes c.node).ctrl
+      · simpa [specStep, stepOk, Tunnox.C08.step, handleDisconnect, hc] using h.closeConn hv c
+      · simpa [specStep, stepOk, Tunnox.C08.step, handleDisconnect, hc] using h
+    | sweep =>
+      by_cases hc : c ∈ (M.nodes c.node).ctrl
+      · have := h.closeConn hv c
+        rw [← sweepStale_eq P M c hc] at this
+        simpa [specStep, stepOk, Tunnox.C08.step, hc] using this
+      · simpa [specStep, stepOk, Tunnox.C08.step, sweepStale, hc] using h
+  | kick c => exact h.kick c
+  | shutdown n => exact h.shutdown n
+  | lookBegin j x => exact h.setPending _
+  | lookEnd j x => exact h.setPending _
   | tick dt => exact h.tick dt
 
 /-! ## what the invariant says about an observation -/
@@ -1005,7 +1146,7 @@ theorem find_cases {P : Params} (hv : P.v = repaired) {S : SpecSt} {M : St} (h :
     · left; rw [hg]
 
 theorem find_live {P : Params} (hv : P.v = repaired) {S : SpecSt} {M : St} (h : Inv S M) {x : Nat} {c : Conn}
-    {u : Nat} (hl : FMap.lookup S.latest x = some (c, u)) (hu : S.now ≤ u) :
+    {u : Nat} (hl : LMap.lookup S.latest x = some (c, u)) (hu : S.now ≤ u) :
     findClientNode P M.now M.store x = .found c.node c := by
   obtain ⟨h1, h2, h3, h4, h5, h6⟩ := h.live x c u hl
   have hu' : M.now ≤ u := h.now_eq ▸ hu
@@ -1022,7 +1163,7 @@ theorem lookOk_of_inv {P : Params} (hv : P.v = repaired) {S : SpecSt} {M : St} (
   unfold lookOk
   rw [Bool.and_eq_true]
   constructor
-  · cases hl : FMap.lookup S.latest x with
+  · cases hl : LMap.lookup S.latest x with
     | none => rfl
     | some p =>
       obtain ⟨c, u⟩ := p
@@ -1044,14 +1185,20 @@ theorem byClient_open {S : SpecSt} {M : St} (h : Inv S M) {j x : Nat} {d : Conn}
   have hc := (h.nodeOk j).ctrl_conns d g1
   have hn := (h.nodeOk j).node_eq d hc
   refine ⟨?_, hn, g3⟩
-  rw [h.opened_iff d, hn]; exact hc
+  exact h.conns_opened j d hc
 
 theorem routeOk_of_inv {P : Params} (hv : P.v = repaired) {S : SpecSt} {M : St} (h : Inv S M) (x j : Nat) :
     routeOk S x j (route P M j x) = true := by
   unfold routeOk
-  rw [Bool.and_eq_true]
+  by_cases hd : j ∈ S.down
+  · have hd' : j ∈ M.down := h.down_eq ▸ hd
+    simp [hd, route, hd']
+  have hd' : j ∉ M.down := h.down_eq ▸ hd
+  have hru : route P M j x = routeUp P M j x := by simp [route, hd']
+  simp only [hd, if_false]
+  rw [hru, Bool.and_eq_true]
   constructor
-  · cases hl : FMap.lookup S.latest x with
+  · cases hl : LMap.lookup S.latest x with
     | none => rfl
     | some p =>
       obtain ⟨c, u⟩ := p
@@ -1062,7 +1209,7 @@ theorem routeOk_of_inv {P : Params} (hv : P.v = repaired) {S : SpecSt} {M : St} 
         by_cases hj : j = c.node
         · subst hj
           simp only [if_true]
-          unfold route; rw [h4]; rfl
+          unfold routeUp; rw [h4]; rfl
         · simp only [hj, if_false]
           split
           · rfl
@@ -1075,7 +1222,7 @@ theorem routeOk_of_inv {P : Params} (hv : P.v = repaired) {S : SpecSt} {M : St} 
                 exfalso; apply hho
                 simp only [holdsOpen, List.any_eq_true, Bool.and_eq_true, beq_iff_eq]
                 exact ⟨d, g1, g2, g3⟩
-            unfold route
+            unfold routeUp
             rw [hnone, find_live hv h hl hu]
             have : ¬ c.node = j := fun e => hj e.symm
             simp [this]
@@ -1090,8 +1237,8 @@ theorem routeOk_of_inv {P : Params} (hv : P.v = repaired) {S : SpecSt} {M : St} 
           exfalso; apply hany
           simp only [List.any_eq_true, beq_iff_eq]
           exact ⟨d, g1, g3⟩
-      have hr : route P M j x = .none_ := by
-        unfold route
+      have hr : routeUp P M j x = .none_ := by
+        unfold routeUp
         rw [hnone]
         by_cases hx : x = 0
         · subst hx; simp [findClientNode]
